@@ -83,17 +83,17 @@ func (f *ruleFactory) CreateRule(version, srcID string, ruleConfig config2.Rule)
 		return nil, err
 	}
 
-	var allowsBacktracking bool
-
 	if f.defaultRule != nil {
 		authenticators = x.IfThenElse(len(authenticators) != 0, authenticators, f.defaultRule.sc)
 		subHandlers = x.IfThenElse(len(subHandlers) != 0, subHandlers, f.defaultRule.sh)
 		finalizers = x.IfThenElse(len(finalizers) != 0, finalizers, f.defaultRule.fi)
 		errorHandlers = x.IfThenElse(len(errorHandlers) != 0, errorHandlers, f.defaultRule.eh)
-		allowsBacktracking = x.IfThenElseExec(ruleConfig.Matcher.BacktrackingEnabled != nil,
-			func() bool { return *ruleConfig.Matcher.BacktrackingEnabled },
-			func() bool { return f.defaultBacktracking })
 	}
+
+	// the setting of the rule takes precedence over the one from the default rule (if any)
+	allowsBacktracking := x.IfThenElseExec(ruleConfig.Matcher.BacktrackingEnabled != nil,
+		func() bool { return *ruleConfig.Matcher.BacktrackingEnabled },
+		func() bool { return f.defaultBacktracking })
 
 	if len(authenticators) == 0 {
 		return nil, errorchain.NewWithMessage(heimdall.ErrConfiguration, "no authenticator defined")
